@@ -1,0 +1,10 @@
+//go:build verif
+
+package readahead
+
+// Hooks for the verification harness (/verif, property C04): the unexported helpers of util.go,
+// so that the correspondence can compare them with the specification directly.  Add-only.
+
+func VerifDropCR(data []byte) []byte { return dropCR(data) }
+
+func VerifMaxi(a, b int) int { return maxi(a, b) }
